@@ -185,6 +185,7 @@ class ArbitraryMessageTask(Task):
                     add(f'{tag}.non-int-rejected/path[{pi}]', core, z3.Implies(fv.tv != 1, any_raise), fm=None)
                 elif t == 'LOOKUP':
                     add(f'{tag}.exact-or-rejected[LOOKUP]/path[{pi}]', core, z3.Implies(z3.And(ok, fv.tr == 1), ct == fv.ri), fm=None, meta={'kind': 'LOOKUP', 'L': L, 'field_index': i})
+                    add(f'{tag}.absent-lookup-is-rejected/path[{pi}]', core, z3.Implies(z3.And(fv.tr == 0, fv.tv == 0), any_raise), fm=None)
                 elif t == 'DATE':
                     add(f'{tag}.exact-or-rejected[DATE]/path[{pi}]', core, z3.Implies(z3.And(ok, fv.tr == 1), ct == fv.ri), fm=None, meta={'kind': 'DATE', 'L': L, 'field_index': i})
                     add(f'{tag}.absent-stays-absent/path[{pi}]', core, z3.Implies(z3.And(ok, fv.tr == 0, fv.tv == 0), ct == full), fm=None)
@@ -316,6 +317,9 @@ def main(tier):
         run.add(ArbitraryMessageTask(ch))
     from contracts.helpers_c import encode_helper_tasks
     for t in encode_helper_tasks('C09'):
+        run.add(t)
+    from contracts.helpers_c import lookup_encode_tasks
+    for t in lookup_encode_tasks('C09'):
         run.add(t)
     from props import C09_extra
     C09_extra.add(run, tier)
